@@ -130,7 +130,7 @@ theorem injectOne_inv {start : Nat} {fix : Fix} {odb : Nat → Option (Nat × Na
     · split at h
       · rename_i bh bb _
         cases h
-        have inv1 : IInv start (trackChange { st with out := st.out ++ [{ ofs := shifted st e.ofs, hdr := Hdr.base, hsize := bh, body := bb, src := none }] }
+        have inv1 : IInv start (trackChange { st with out := st.out ++ [{ ofs := shifted st e.ofs, hdr := Hdr.base, hsize := bh, body := bb, src := none, baseId := some id }] }
             (shifted st e.ofs) e.ofs ((bh + bb : Nat) : Int) (some id)) e.ofs :=
           inv.push _ rfl _ _ _ _ _ (by simp only []; omega)
         exact inv1.shiftAndPoint idx (bh + bb)
